@@ -769,9 +769,10 @@ static void generate(const char *tier)
 			long id = add_spec(&s);
 			if (id < 0) continue;
 			if (!thorough) {
-				add_item(id, 3, M_DIRECT, 1);
+				/* quick: every prefix for A (all pairs) and for the single deviations of AAAA/PTR; AAAA/PTR pairs as whole messages */
+				add_item(id, 3, M_DIRECT, (qt == QT_A || dev <= 1) ? 1 : 0);
 				if (dev <= 1) { add_item(id, 0, M_DIRECT, 1); add_item(id, 1, M_DIRECT, 1); add_item(id, 2, M_DIRECT, 1); add_item(id, 3, M_UDP, 1); add_item(id, 1, M_TCP, 2); add_item(id, 3, M_TCP, 0); }
-				else add_item(id, 3, M_UDP, 0);
+				else if (qt == QT_A) add_item(id, 3, M_UDP, 0);
 			} else {
 				add_item(id, 3, M_DIRECT, 1);
 				if (dev <= 2) { add_item(id, 0, M_DIRECT, 1); add_item(id, 1, M_DIRECT, 1); add_item(id, 2, M_DIRECT, 1); add_item(id, 3, M_UDP, 1); add_item(id, 3, M_TCP, 2); }
